@@ -61,11 +61,32 @@ pub fn float_exact<S: OSr>(w: &[(S, S)]) -> bool {
 }
 
 pub fn params<S: OSr>(w: &[(S, S)]) -> WmcParams<S::R> {
-    let mut m = HashMap::new();
-    for (i, (l, h)) in w.iter().enumerate() {
-        m.insert(VarLabel::new(i as u64), (l.to_r(), h.to_r()));
+    // both public ways of filling a weight table are used: the constructor, and
+    // set_weight() in a scrambled order with every other label first set to a wrong
+    // value and then overwritten (the table must hold the LAST weight set per label)
+    let mut scramble = crate::rng::hash_str(&format!("{:?}", w.iter().map(|x| x.0.show()).collect::<Vec<_>>()));
+    if scramble & 1 == 0 {
+        let mut m = HashMap::new();
+        for (i, (l, h)) in w.iter().enumerate() {
+            m.insert(VarLabel::new(i as u64), (l.to_r(), h.to_r()));
+        }
+        return WmcParams::new(m);
     }
-    WmcParams::new(m)
+    let mut order: Vec<usize> = (0..w.len()).collect();
+    for i in (1..order.len()).rev() {
+        scramble = crate::rng::mix(scramble);
+        order.swap(i, (scramble % (i as u64 + 1)) as usize);
+    }
+    let mut p: WmcParams<S::R> = WmcParams::default();
+    for (k, i) in order.iter().enumerate() {
+        if k % 2 == 0 {
+            p.set_weight(VarLabel::new(*i as u64), w[*i].1.to_r(), w[*i].0.to_r());
+        }
+    }
+    for i in order.iter().rev() {
+        p.set_weight(VarLabel::new(*i as u64), w[*i].0.to_r(), w[*i].1.to_r());
+    }
+    p
 }
 
 /// sum over all models (over all n variables) of the product of literal weights
